@@ -101,6 +101,8 @@ type World struct {
 	handlers map[string]http.Handler
 	// keyName maps a concrete cache key to its model name
 	keyName map[string]string
+	// Tap sees every hook point first (decision-table runners that drive pike objects directly)
+	Tap func(pt string, obj interface{}, args ...interface{})
 	// Policy decides the outcome in free-running mode (no proc)
 	Policy func(ri *ReqInfo, req *http.Request) Outcome
 	// PanicAfterProxy procs whose handler must panic after the proxy returned
@@ -474,6 +476,9 @@ func (w *World) point(pt string, obj interface{}, args ...interface{}) {
 	w.mu.Unlock()
 	if isDead {
 		return
+	}
+	if w.Tap != nil {
+		w.Tap(pt, obj, args...)
 	}
 	switch pt {
 	case "disp.new":
